@@ -37,12 +37,12 @@ class C07(Check):
     BUDGET = {'quick': 30, 'thorough': 240}
     RULE = ('case = (configuration, timestamps, parent context). Box: EVERY gap sequence of length <= 5 (quick) / 6 (thorough) over the gap alphabet {0,1,2,3,4,5} '
             '(contains timeout-1, timeout, timeout+1 for active=4 and inactive=2) x start offset 0..2 x all 12 configurations (each timeout present/None, closing mapper '
-            'present/None, include True/False); then random sequences up to 60 items with other timeouts, timestamps as int and as datetime/timedelta, under group_by '
+            'present/None, include True/False); then random sequences up to 60 items with other timeouts, timestamps as int and as datetime/timedelta (a twelfth of the cases at day scale: timeouts of a day to a week, gaps of days to a year), under group_by '
             'with interleaved keys, in roll and in split. non-trivial = some key lifetime has >= 2 windows; distinct = hash of the case')
     ASSUMPTIONS = ['timestamps are non-decreasing per key and timeouts are > 0 (domain of the property)',
                    'closing_mapper returns a bool']
     ANCHORS = ['rxsci/data/time_split.py', 'rxsci/operators/multiplex.py']
-    REQUIRED_TAGS = ['top', 'group', 'active', 'inactive', 'no-timeout', 'closing', 'include', 'exclude', 'datetime', 'equal-timestamps', 'gap=timeout']
+    REQUIRED_TAGS = ['top', 'group', 'active', 'inactive', 'no-timeout', 'closing', 'include', 'exclude', 'datetime', 'equal-timestamps', 'gap=timeout', 'day-scale']
     REQUIRED_OBSERVED = ['child_lifetimes_checked', 'parent_lifetimes_checked', 'empty_windows_dropped']
 
     def generate(self, rng, tier, shard, nshards):
@@ -76,6 +76,11 @@ class C07(Check):
             a = rng.choice([None, 3, 5, 8])
             b = rng.choice([None, 2, 3, 4])
             alpha = sorted({0, 1, 2, (a or 3) - 1, a or 3, (a or 3) + 1, (b or 2) - 1, b or 2, (b or 2) + 1})
+            if j % 12 == 6:
+                # day scale: timeouts of a day or more and gaps of days / years (timedelta.days matters)
+                a = rng.choice([None, 3600, 86400, 90000, 604800])
+                b = rng.choice([None, 3, 86400, 172800])
+                alpha = [0, 1, 2, 3, 3599, 3600, 86399, 86400, 86401, 90000, 172800, 604800, 31536000, 31536003]
             t = rng.randint(0, 5)
             items = []
             for _ in range(rng.choice([0, 1, 4, 12, 30, 60])):
@@ -99,6 +104,8 @@ class C07(Check):
             out.tags += ['closing', 'include' if cfg['include'] else 'exclude']
         if cfg.get('time') == 'dt':
             out.tags.append('datetime')
+        if (cfg['active'] or 0) >= 86400 or (cfg['inactive'] or 0) >= 86400 or (items and items[-1] - items[0] >= 86400):
+            out.tags.append('day-scale')
         gaps = [b - a for a, b in zip(items, items[1:])]
         if 0 in gaps:
             out.tags.append('equal-timestamps')
